@@ -158,7 +158,7 @@ def cases(tier, seed):
                             continue
                         yield {"shape": "ref", "mnem": mnem, "kind": kind, "dir": direction, "n": n, "k": 0, "org": org, "ind": ind, "org_after": True}
     # (b6) the target label spelt like a register name or with a leading digit (legal label names; only A, B, D before ,PCR are not)
-    for tname in ("X", "Y", "U", "S", "PC", "DP", "CC", "PCR", "9LIVES", "2ND"):
+    for tname in ("X", "Y", "U", "S", "PC", "DP", "CC", "PCR", "9LIVES", "2ND", "EACH", "DH", "FACE"):
         for mnem, kind in (("LEAX", "pcr"), ("LDY", "pcr"), ("BNE", "rel"), ("LBRA", "rel")):
             for direction in ("fwd", "bwd"):
                 for n in (0, 5, 126, 130):
@@ -393,7 +393,7 @@ def _d(x):
 def describe(tier):
     return {
         "alphabet": "(a) 19 short + 19 long branches, forward/backward/self, RMB filler n; targets L, L+-k; with ORG at 6 origins; "
-                    "(b) every indexed-capable mnemonic with L,PCR and [L,PCR], same sweeps; (b2) distances 100..140 built from constant-offset indexed / extended instructions instead of RMB; (b3) spans mixing 0-4 constant-offset indexed statements, 0-3 other unsized PCR statements (near or far) and RMB filler; (b6) target labels named X Y U S PC DP CC PCR 9LIVES 2ND; (b3k) the same with label+-n (n = 4, 8, 16) as the target; (b5) a branch / label,PCR statement directly followed by an ORG; (b4) the same with 1 or 3 statements of each of 33 size-computation paths (indexed forms, immediates, direct/extended, stack lists, FCB/FDB single and lists, FCC, RMB, long branches) in the span; (c) bare n,PCR over V16 x 3 spellings; "
+                    "(b) every indexed-capable mnemonic with L,PCR and [L,PCR], same sweeps; (b2) distances 100..140 built from constant-offset indexed / extended instructions instead of RMB; (b3) spans mixing 0-4 constant-offset indexed statements, 0-3 other unsized PCR statements (near or far) and RMB filler; (b6) target labels named X Y U S PC DP CC PCR 9LIVES 2ND EACH DH FACE; (b3k) the same with label+-n (n = 4, 8, 16) as the target; (b5) a branch / label,PCR statement directly followed by an ORG; (b4) the same with 1 or 3 statements of each of 33 size-computation paths (indexed forms, immediates, direct/extended, stack lists, FCB/FDB single and lists, FCC, RMB, long branches) in the span; (c) bare n,PCR over V16 x 3 spellings; "
                     "(d) two PCR statements (and PCR + short branch) referencing any of 5 labels around them, both gaps over 112..132"
                     + ("; three PCR statements, 6 reference shapes, three gaps over 112..132" if tier == "thorough" else ""),
         "bound": "n in 0..140 for {} mnemonics, boundary band {} for the rest; +-10 around 32767 for {}".format(
